@@ -177,6 +177,19 @@ func genStream(r *RNG, n int, op string, emit func(string)) {
 			}
 			stream = append(stream, m...)
 		}
+		// a message whose last AVP is sent without its padding, so that the declared Message
+		// Length is not a multiple of four (some stacks do that); another message right behind it
+		if r.Chance(12) {
+			k := 1 + r.Intn(3) + 4*r.Intn(3)
+			last := rawAVP(264, 0x40, 0, 8+k, []byte("peer.example")[:k], false)
+			body := append(rawAVP(296, 0x40, 0, 12, []byte("r.ex"), true), last...)
+			um := append(rawHeader(20+len(body), 0x80, 280, 0, genID(r), genID(r)), body...)
+			if r.Bool() {
+				stream = append(um, stream...)
+			} else {
+				stream = append(append(stream, um...), rawHeader(20, 0x80, 280, 0, genID(r), genID(r))...)
+			}
+		}
 		// damage: declared length 0..19, unknown command, truncation, trailing garbage
 		switch r.Intn(10) {
 		case 0:
